@@ -33,7 +33,7 @@ def gen_case(rng, consts, style):
     for di in range(ndev):
         name = "d%d" % di
         nk = rng.randint(2, 7)
-        kinds = ["login"] + rng.sample(ALLKINDS, nk)
+        kinds = ["login"] + rng.sample(ALLKINDS, nk if style == "random" else rng.randint(8, 16))
         nplugs = rng.randint(1, 4)
         hard = rng.random() < 0.5
         pn = ["p%d" % (k + 1) for k in range(nplugs + (rng.choice([0, 1]) if hard else 0))]
@@ -61,19 +61,33 @@ def gen_case(rng, consts, style):
     nodes = cfg.all_nodes()
     nargs = 0
     words = pmgen.POWER_WORDS + pmgen.QUERY_WORDS
-    for step in range(rng.randint(6, 40)):
+    for step in range(rng.randint(6, 40) if style == "random" else rng.randint(20, 60)):
         r = rng.random()
         if r < 0.16:
             t = rng.sample(nodes, rng.randint(1, len(nodes)))
             if rng.random() < 0.15: t = t + [t[0]]
             ops.append("NEWARGS " + ",".join(x.encode().hex() for x in t))
             w = rng.choice(words)
-            ops.append("ENQ %d %d %d %d %s" % (consts[pmgen.KINDS[pmgen.CLIENT_COMS[w]]], rng.randint(1, 3), rng.choice([0, 0, 1]), nargs, ",".join(x.encode().hex() for x in t)))
+            ops.append("ENQ %d %d %d %d %s" % (consts[pmgen.KINDS[pmgen.CLIENT_COMS[w]]], rng.randint(1, 3), rng.choice([0, 1]), nargs, ",".join(x.encode().hex() for x in t)))
             nargs += 1
         elif r < 0.62:
             di = rng.randrange(ndev)
-            k = rng.choice([1, 1, 2, 3, 6])
-            data = "".join(rng.choice(POOL) for _ in range(k))
+            if style == "gen" and rng.random() < 0.8:
+                # a device that answers the generated scripts: one line per plug with a verdict, then the terminators
+                d = cfg.devs[di]
+                pn = d.hardwired if d.hardwired is not None else expand_plugs(cfg, d.name)
+                lines = ["ready\n"] if rng.random() < 0.7 else []
+                for p_ in pn:
+                    if rng.random() < 0.9:
+                        lines.append("%s %s\n" % (p_, rng.choice(["OK", "OK", "OK", "ERR", "ON", "OFF", "ON", "OFF", "42", "ERRX"])))
+                if rng.random() < 0.15: rng.shuffle(lines)
+                lines += ["done\n"] if rng.random() < 0.85 else []
+                lines += ["pong\n"] if d.ping else []
+                data = "".join(lines)
+                if rng.random() < 0.2: data = data[:rng.randint(0, len(data))]
+            else:
+                k = rng.choice([1, 1, 2, 3, 6])
+                data = "".join(rng.choice(POOL) for _ in range(k))
             ops.append("FEED %d %s" % (di, data.encode("latin-1").hex()))
         elif r < 0.66:
             ops.append("PEERCLOSE %d" % rng.randrange(ndev))
@@ -81,10 +95,18 @@ def gen_case(rng, consts, style):
             ops.append("FINISH %d %d" % (rng.randrange(ndev), rng.choice([0, 1, 1])))
         elif r < 0.74:
             ops.append("PLAN %d %s" % (rng.randrange(ndev), " ".join(rng.choice(["now", "pending", "fail"]) for _ in range(3))))
-        now += rng.choice([0, 0, 1000, 100000, 500000, 1000000, 1000000, 2500000, 8000000])
+        now += rng.choice([0, 0, 1000, 100000, 500000, 1000000, 1000000, 2500000, 8000000] if style == "random" else [0, 0, 0, 1000, 1000, 100000, 500000, 1000000, 6000000])
         ops.append("NOW %d" % now)
         ops.append("PASS")
     return cfg, asts, ops
+
+
+def expand_plugs(cfg, devname):
+    out = []
+    for n, d, p in cfg.node_lines:
+        if d == devname:
+            out += pmgen.expand(p) if p is not None else pmgen.expand(n)
+    return out
 
 
 def run_impl(exe, scratch, idx, cfg, ops):
